@@ -66,6 +66,10 @@ def solve(formula, display=True, log=False, params={}):
                 solver.Add(left == const[j])
             else:
                 solver.Add(left <= const[j])
+        elif sense[j] == 1:
+            solver.Constraint(const[j], const[j])
+        else:
+            solver.Constraint(-solver.infinity(), const[j])
 
     if display:
         print('Being solved by OR-Tools...', flush=True)
